@@ -9,7 +9,7 @@
 // the cell offsets stay constants for CBMC's symbolic execution (a symbolic write offset into the 4 KiB page object
 // costs minutes).  Payload values (first / interior / last byte, left child) are symbolic, payload sizes concrete.
 // Each law is accumulated into one boolean over all paths and steps and asserted once at the end.
-// @limits jobs=8 mem_gb=48
+// @limits jobs=8 mem_gb=48 timeout_s=900
 #![allow(unused_imports, dead_code, unused_variables, unused_mut, clippy::all)]
 use super::*;
 use std::ptr::NonNull;
